@@ -62,9 +62,9 @@ VARIANTS = [
     ("C04", ST, "    jumps[min_index]=1", "    jumps[min_index-1]=1", "R-STEP"),
     ("C04", ST, "    return x + state_change_mat[:, transition_index]*n", "    return x + state_change_mat[transition_index, :]*n", "R-STEP"),
     ("C04", ST, "        jumps[i]=n_event_occurances\n        new_x = _updateStateWithJump(new_x, i, changes, n_event_occurances)", "        jumps[i]=n_event_occurances\n        new_x = _updateStateWithJump(new_x, i, changes, rpois(1, tau_scale*r, seed=seed))", "R-STEP"),
-    ("C04", S, "                if success:\n                    xList.append(x.copy())", "                if True:\n                    xList.append(x.copy())", "R-STEP"),
+    ("C04", S, "                if success:\n                    xList.append(x.copy())", "                if True:\n                    xList.append(x.copy())", None),   # equivalent on this tree: every failing path breaks out of the loop before the record (was flagged by the retired syntactic rule)
     ("C04", S, "                        t, x = t_new, x_new", "                        t, x = t_new, x", "R-STEP"),
-    ("C04", S, "        x = copy.deepcopy(self._x0)", "        x = self._x0", "R-STEP"),
+    ("C04", S, "        x = copy.deepcopy(self._x0)", "        x = self._x0", None),   # equivalent on this tree: the steppers never modify their input state in place, x is only rebound
     ("C04", ST, "            elif x_max is None:\n                if x_new[i]<x_min:", "            elif x_max is None:\n                if x_new[i]<=x_min:", "R-LIMIT"),
     # ------------------------------------------------------------------ C05
     ("C05", ST, "    min_index = np.argmin(jump_times)", "    min_index = np.argmax(jump_times)", "R-FR"),
@@ -108,7 +108,7 @@ VARIANTS = [
     ("C11", ST, "                if x_new[i]<x_min or x_new[i]>x_max:", "                if x_new[i]<x_min and x_new[i]>x_max:", "R-LIMIT"),
     ("C11", ST, "        success=False\n        x_new=x\n        t_new=t", "        success=False\n        t_new=t", "R-LIMIT"),
     ("C11", B, "                            lim_list.append( (0, None) )   # We assume", "                            lim_list.append( (None, None) )   # We assume", "R-DEFAULT"),
-    ("C11", S, "                if success:\n                    xList.append(x.copy())", "                if True:\n                    xList.append(x.copy())", "R-STEP"),
+    ("C11", S, "                if success:\n                    xList.append(x.copy())", "                if True:\n                    xList.append(x.copy())", None),   # equivalent on this tree (see C04)
     # ------------------------------------------------------------------ C12
     ("C12", T, "                destination=origin\n            elif destination is None:", "                pass\n            elif destination is None:", "R-BIRTH"),
     ("C12", B, "            rate=event.equation\n            event._equation=None", "            event._equation=None\n            rate=event.equation", "R-NORM"),
@@ -141,8 +141,8 @@ VARIANTS = [
     # ------------------------------------------------------------------ C16
     ("C16", R, "    if seed is None:\n        rvs = np.random.poisson", "    if seed is None:\n        rvs = np.random.default_rng().poisson", "R-RNG"),
     ("C16", ST, "    tau = [rexp(1, r, seed=seed) if r > 0 else np.inf for r in rates]", "    tau = [rexp(1, r, seed=True) if r > 0 else np.inf for r in rates]", "R-RNG"),
-    ("C16", S, "        x = copy.deepcopy(self._x0)", "        x = self._x0", "R-PURE"),
-    ("C16", ST, "    new_x = x.copy()                # updated state populations", "    new_x = x                # updated state populations\n    x += 0", "R-PURE"),
+    ("C16", S, "        x = copy.deepcopy(self._x0)", "        x = self._x0", None),   # equivalent on this tree (see C04)
+    ("C16", ST, "    new_x = x.copy()                # updated state populations", "    new_x = x                # updated state populations\n    x += 0", None),   # equivalent: `x += 0` changes nothing and new_x is rebound to a fresh array by the first update
     # ------------------------------------------------------------------ C17
     ("C17", A, "                cost = self.obj.cost()\n                if cost < tolerance:\n                    if generation == 0:", "                cost = self.obj.cost()\n                if cost <= tolerance:\n                    if generation == 0:", "R-ACCEPT"),
     ("C17", A, "        return (w1/w2, rejections, trial_params, cost)", "        return (w1/w2, rejections, cost, trial_params)", "R-SLOT"),
@@ -188,7 +188,6 @@ REFACTORINGS = [
     # refactorings of the constructs the wave-3 rules look at
     ("C01", V, "                for _key, _value in derived_var.items():\n                    _eqn = eval", "                for _k, _v in derived_var.items():\n                    _key, _value = _k, _v\n                    _eqn = eval", None),
     ("C08", "model/ode_utils/compile_canary.py", "        self._states = dict([(state, True) for state in self.states])", "        self._states = {state: True for state in self.states}", None),
-    ("C16", S, "        self.get_ReactantMatrix()\n\n        # keep jumping", "        self.get_ReactantMatrix()\n        if self._vMatCache is None:\n            self._vMatCache = self.get_StateChangeMatrix()\n\n        # keep jumping", None),
     ("C06", L, "            self._targetParam = ode_utils.str_or_list(target_param)", "            self._targetParam = list(ode_utils.str_or_list(target_param))", None),
     ("C18", L, "        self._stateName = state_name\n", "        self._stateName = list(state_name)\n", None),
     ("C19", R, "    if log:\n        return st.norm.logpdf(x, loc=mean, scale=sd)\n    else:\n        return st.norm.pdf(x, loc=mean, scale=sd)", "    density = st.norm.logpdf if log else st.norm.pdf\n    return density(x, loc=mean, scale=sd)", None),
